@@ -131,4 +131,26 @@ PROPS = {
         "exhaustive": False,
         "assumptions": ["FE1-FE4 (acquisition, tracking, release, clock) hold for the real DSP on the property's line conditions: measured on every sampled case (counters fe*), never proved"],
     },
+    "C02": {
+        "thm": "SameVerif.Thm.C02",
+        "suites": ["asmseq", "asmscen", "sigmask"],
+        "spec_filter": r"^spec\.(asm|sig) c02 ",
+        "technique": "Lean 4 theorems on the assembler model for every header, every poll schedule (two intact bursts are reported exactly once; a single burst never yields a StartOfMessage) + kernel-evaluated counterexample for the known lost-trailer case + correspondence with private state + full 64-mask sweeps at transport and signal level",
+        "level_text": "Proved in Lean: combine of two identical canonical headers is exactly that header (voting 0, parity 0); from an empty assembler, two intact bursts within the history window, with ANY polls in between and ANY polls before the hold expires, yield no output until the first poll at or after t2+hold, which outputs exactly StartOfMessage H; a single burst followed by any polls never yields a StartOfMessage (only a lone NN.. burst yields a fast EndOfMessage); three maximum-length bursts at the longest pause fit the history window (over the generated constants); C03.combine_two_of_three covers the corrupted third burst in all orders. The full trailer clause is FALSE today in one region: eom_lost_counterexample evaluates the history H@1000, H@2900, NNNN@3581, NNNN@4262 to [StartOfMessage] only (known finding F4, reproduced on the real receiver at signal level). Tie: hook-level correspondence incl. private state; all 64 presence masks x corruption x gaps x pauses x lengths at transport level with a poll at every idle tick, and all 64 masks at signal level, judged by the C02 oracle.",
+        "level_note": "The transport-level theorem for three bursts with a corrupted one under arbitrary interleaved polls is covered by the sweep, not yet by a poll-schedule-generic theorem. One open known finding (F4).",
+        "rule": ASM_RULE + " sigmask: all 64 presence masks x header-to-trailer gaps x rates at signal level with bursts replaced by silence.",
+        "exhaustive": False,
+        "assumptions": ["ticks are non-decreasing", "the receiver polls on every NoCarrier tick and never while the link is busy (receiver model, C13)"],
+    },
+    "C05": {
+        "thm": "SameVerif.Thm.C05",
+        "suites": ["asmseq", "asmscen", "sigmask"],
+        "spec_filter": r"^spec\.(asm c05|asm c05w|sig c05one) ",
+        "technique": "Lean 4 invariants over all assembler operation histories (history bound, duplicate-suppression invariant) lifted to runs: two consecutive reports of the same text are at least MAX_HISTORY_DURATION apart; re-report after the window; kernel-evaluated counterexample for the known duplicate trailer + scenario sweeps with subsequence and window oracles",
+        "level_text": "Proved in Lean over every sorted operation list from the initial state: the history never holds more than two bursts and every entry is live and bounded; the duplicate-suppression invariant is preserved by idle and assemble; consequently two consecutive message reports with the same text are at least HIST ticks apart (dedup window, measured from the report, exactly HIST long), and a message whose combine succeeds after the previous entry expired is accepted again (re-report). The at-most-once clause is FALSE today for trailers: eom_twice_counterexample evaluates NNNN@100, NNNN@805, NNNN@1510, X@6215 to two EndOfMessage (known finding F5); eom_once_partial states exactly when a second EOM can occur. Tie and exploration as C02; the oracle checks that the reported sequence is an in-order subsequence of the transmitted one (no duplicates) and both edges of the window.",
+        "level_note": "Order preservation across different messages is checked by the subsequence oracle on sweeps, not proved. One open known finding (F5).",
+        "rule": ASM_RULE,
+        "exhaustive": False,
+        "assumptions": ["ticks are non-decreasing"],
+    },
 }
